@@ -23,6 +23,28 @@ Definition item_ok (it : item) : Prop :=
 (* what the tokenizer makes of a comment written with data d *)
 Definition comment_reread (d : bytes) : bytes := unescape false (conv_nul (conv_nl (escape_comment d))).
 
+(* ... which is d itself when d has neither a carriage return nor a NUL (the tokenizer normalises both) *)
+Lemma escape_comment_from_forall (P : N -> Prop) : P 38 -> P 97 -> P 109 -> P 112 -> P 59 -> P 103 -> P 116 ->
+  forall d prev, Forall P d -> Forall P (escape_comment_from prev d).
+Proof.
+  intros P38 P97 P109 P112 P59 P103 P116. induction d as [|c d IH]; intros prev H; cbn [escape_comment_from]; [constructor|].
+  inversion H as [|? ? Hc Hd]; subst. apply Forall_app. split; [|apply IH; exact Hd].
+  destruct (c =? 38); [repeat constructor; assumption|]. destruct ((c =? 62) && _); repeat constructor; assumption.
+Qed.
+
+Lemma conv_nul_no_nul : forall s, Forall (fun c => (c =? 0) = false) s -> conv_nul s = s.
+Proof. unfold conv_nul. induction s as [|c s IH]; intros H; cbn [flat_map]; [reflexivity|]. inversion H as [|? ? Hc Hs]; subst. rewrite Hc, IH by exact Hs. reflexivity. Qed.
+
+Theorem comment_reread_id d : Forall (fun c => (c =? CR) = false /\ (c =? 0) = false) d -> comment_reread d = d.
+Proof.
+  intros H. unfold comment_reread.
+  assert (He : Forall (fun c => (c =? CR) = false /\ (c =? 0) = false) (escape_comment d)).
+  { unfold escape_comment. apply escape_comment_from_forall; try (split; reflexivity). exact H. }
+  rewrite conv_nl_no_cr by (eapply Forall_impl; [|exact He]; intros c [A _]; exact A).
+  rewrite conv_nul_no_nul by (eapply Forall_impl; [|exact He]; intros c [_ A]; exact A).
+  apply unescape_escape_comment.
+Qed.
+
 Fixpoint segs (its : list item) (cur : bytes) : list seg :=
   match its with
   | [] => flushS cur []
